@@ -9,9 +9,38 @@ src_txt = open(os.path.join(VERIF, "tools", "mutscan.py")).read().replace("\nmai
 ns: dict = {}
 exec(compile(src_txt, "mutscan", "exec"), ns)
 log = sys.argv[1]
-checks = "C01,C02,C03,C09,C05,C08,C04,C44,C39,C10,C11,C13,C18,C19".split(",")
+fixed_checks = None
 if "--checks" in sys.argv:
-    checks = sys.argv[sys.argv.index("--checks") + 1].split(",")
+    fixed_checks = sys.argv[sys.argv.index("--checks") + 1].split(",")
+
+
+def checks_for(f: str) -> list:
+    """which checks see code in this file (beyond the ones anchored in it): by area of the library"""
+    if fixed_checks:
+        return fixed_checks
+    b = os.path.basename(f)
+    if "/operators/" in f:
+        cs = ["C05", "C06", "C08", "C09", "C01", "C02", "C03", "C04", "C44", "C39"]
+        if any(k in b for k in ("time", "delay", "debounce", "throttle", "timeout", "sample", "window", "buffer")):
+            cs = ["C15", "C16", "C17", "C18"] + cs
+        if any(k in b for k in ("merge", "flatmap", "switch", "concat", "amb", "zip", "combine", "latest", "forkjoin", "join", "group", "partition", "catch", "retry", "repeat", "whiledo")):
+            cs = ["C10", "C11", "C12", "C13", "C19", "C43"] + cs
+        if any(k in b for k in ("publish", "replay", "refcount", "multicast", "connectable")):
+            cs = ["C24"] + cs
+        if any(k in b for k in ("observeon", "subscribeon", "tofuture", "do", "finally")):
+            cs = ["C32", "C40", "C41"] + cs
+        return cs
+    if "/subject/" in f or "scheduledobserver" in b:
+        return ["C20", "C21", "C22", "C23", "C24", "C32", "C19", "C14"]
+    if "/scheduler/" in f or "/internal/priorityqueue" in f:
+        return ["C28", "C29", "C30", "C31", "C33", "C34", "C35", "C36", "C42", "C25", "C32", "C37", "C14"]
+    if "/disposable/" in f:
+        return ["C25", "C26", "C27", "C02", "C03", "C12", "C19"]
+    if "/observable/" in f:
+        return ["C37", "C10", "C11", "C13", "C38", "C41", "C40", "C14", "C24", "C43", "C39", "C01", "C02", "C03", "C09", "C07"]
+    if "/observer/" in f:
+        return ["C01", "C02", "C03", "C20", "C32", "C40"]
+    return ["C01", "C38", "C39", "C36"]
 seen = set()
 for line in open(log):
     m = re.match(r"SURVIVED\s+(\S+):(\d+) (.*?) tests=pass", line)
@@ -31,7 +60,7 @@ for line in open(log):
     open(os.path.join(d, f), "w").write(ns["apply"](src, mm[0]))
     env = dict(os.environ, VERIF_REPO=d, VERIF_JOBS="8", VERIF_OUT_DIR=os.path.join(d, "out"), VERIF_EVID_DIR=os.path.join(d, "evid"), VERIF_UNIT_TIMEOUT="60")
     by = None
-    for ck in checks:
+    for ck in checks_for(f):
         try:
             p = subprocess.run([os.path.join(VERIF, "check"), ck, "quick"], env=env, capture_output=True, text=True, timeout=300, cwd=VERIF)
         except subprocess.TimeoutExpired:
